@@ -55,29 +55,64 @@ Section Cover.
        bx_body := stream H256 D03 rs (bx_body x) |}.
 
   Theorem add_payload_integrity_ok (x : bexchange) (rs : N) :
-    1 <= rs -> hdr_get (bx_hdr x) (s2b "Digest") = [] ->
+    1 <= rs -> rs <= 16384 -> hdr_values (bx_hdr x) (s2b "Digest") = [] ->
     add_payload_integrity H256 x rs = Ok (with_integrity x rs, integrity_identifier D03).
-  Proof.
-    intros Hrs Hg. unfold add_payload_integrity. rewrite Hg.
+  Proof using.
+    clear sig_ok x509_key Hlen Hwf.
+    intros Hrs Hrs2 Hg. unfold add_payload_integrity. rewrite Hg.
+    replace ((rs <? 1) || (16384 <? rs)) with false by lia.
     rewrite (encode_refines_spec H256 D03 rs (bx_body x) Hrs). reflexivity.
   Qed.
 
-  Theorem add_payload_integrity_inv (x : bexchange) (rs : N) (x' : bexchange) (integ : bytes) :
-    1 <= rs -> add_payload_integrity H256 x rs = Ok (x', integ) ->
-    hdr_get (bx_hdr x) (s2b "Digest") = [] /\ x' = with_integrity x rs /\
-    integ = integrity_identifier D03.
-  Proof.
-    intros Hrs. unfold add_payload_integrity.
-    destruct (hdr_get (bx_hdr x) (s2b "Digest")) eqn:Eg; [|discriminate].
+  (* what a successful AddPayloadIntegrity implies: no Digest value of any kind
+     before (not even an empty one), a record size every verifier accepts, and
+     exactly the MI-encoded exchange *)
+  Theorem add_payload_integrity_ok_inv (x : bexchange) (rs : N) (x' : bexchange) (integ : bytes) :
+    add_payload_integrity H256 x rs = Ok (x', integ) ->
+    hdr_values (bx_hdr x) (s2b "Digest") = [] /\ 1 <= rs /\ rs <= 16384 /\
+    x' = with_integrity x rs /\ integ = integrity_identifier D03.
+  Proof using.
+    clear sig_ok x509_key Hlen Hwf.
+    unfold add_payload_integrity.
+    destruct (hdr_values (bx_hdr x) (s2b "Digest")) eqn:Eg; [|discriminate].
+    destruct ((rs <? 1) || (16384 <? rs)) eqn:Er; [discriminate|].
+    assert (Hrs : 1 <= rs) by lia.
     rewrite (encode_refines_spec H256 D03 rs (bx_body x) Hrs). cbn [bind].
-    intros H. injection H as <- <-. auto.
+    intros H. injection H as <- <-. repeat split; try reflexivity; lia.
   Qed.
 
+  Theorem add_payload_integrity_ok_iff (x : bexchange) (rs : N) (x' : bexchange) (integ : bytes) :
+    add_payload_integrity H256 x rs = Ok (x', integ) <->
+    hdr_values (bx_hdr x) (s2b "Digest") = [] /\ 1 <= rs /\ rs <= 16384 /\
+    x' = with_integrity x rs /\ integ = integrity_identifier D03.
+  Proof using.
+    clear sig_ok x509_key Hlen Hwf.
+    split; [apply add_payload_integrity_ok_inv|].
+    intros [Hg [H1 [H2 [-> ->]]]]. apply add_payload_integrity_ok; assumption.
+  Qed.
+
+  (* it refuses - an error, never a panic - in every other case *)
   Theorem add_payload_integrity_refuses (x : bexchange) (rs : N) :
-    hdr_get (bx_hdr x) (s2b "Digest") <> [] -> add_payload_integrity H256 x rs = Err.
-  Proof.
+    hdr_values (bx_hdr x) (s2b "Digest") <> [] \/ rs < 1 \/ 16384 < rs ->
+    add_payload_integrity H256 x rs = Err.
+  Proof using.
+    clear sig_ok x509_key Hlen Hwf.
     intros Hg. unfold add_payload_integrity.
-    destruct (hdr_get (bx_hdr x) (s2b "Digest")); [contradiction|reflexivity].
+    destruct (hdr_values (bx_hdr x) (s2b "Digest")); [|reflexivity].
+    destruct Hg as [Hg|Hg]; [contradiction|].
+    replace ((rs <? 1) || (16384 <? rs)) with true by lia. reflexivity.
+  Qed.
+
+  Theorem add_payload_integrity_ok_or_err (x : bexchange) (rs : N) :
+    add_payload_integrity H256 x rs = Err \/
+    add_payload_integrity H256 x rs = Ok (with_integrity x rs, integrity_identifier D03).
+  Proof using.
+    clear sig_ok x509_key Hlen Hwf.
+    destruct (hdr_values (bx_hdr x) (s2b "Digest")) eqn:Eg.
+    - destruct (N.lt_ge_cases rs 1) as [C|C]; [left; apply add_payload_integrity_refuses; auto|].
+      destruct (N.lt_ge_cases 16384 rs) as [C'|C']; [left; apply add_payload_integrity_refuses; auto|].
+      right. apply add_payload_integrity_ok; assumption.
+    - left. apply add_payload_integrity_refuses. left. rewrite Eg. discriminate.
   Qed.
 
   Lemma digest_header_nonempty (rs : N) (p : bytes) : digest_header H256 D03 rs p <> [].
@@ -253,7 +288,7 @@ Section Cover.
      leaf.  If NewVerifier accepts sigs at (tsec, tnsec) then every covered
      exchange verifies with its ORIGINAL body and the signer's leaf DER, unless
      an earlier subset already lists its URL. *)
-  Theorem covered_verifies (certs : list augcert) (validity : bytes) (date duration : Z)
+  Theorem covered_verifies_gen (certs : list augcert) (validity : bytes) (date duration : Z)
       (ss0 ss : signed_subset) (xs : list (bexchange * bytes)) (signed : bytes)
       (sigs : signatures) (i : nat) (v : vouched) (leaf : augcert)
       (tsec tnsec : Z) (ver : bversion) (vss : list (signed_subset * augcert * bool))
@@ -285,6 +320,29 @@ Section Cover.
     - cbn [with_hashes ss_hashes].
       eapply Permutation_NoDup; [apply Permutation_map, Permutation_sym; exact HP|exact HN].
     - cbn [with_hashes ss_hashes]. eapply Permutation_in; [apply Permutation_sym; exact HP|exact Hin'].
+  Qed.
+
+  (* the same, for what AddPayloadIntegrity actually returned: its success already
+     says that the record size is 1..16384 and that there was no Digest value *)
+  Theorem covered_verifies (certs : list augcert) (validity : bytes) (date duration : Z)
+      (ss0 ss : signed_subset) (xs : list (bexchange * bytes)) (signed : bytes)
+      (sigs : signatures) (i : nat) (v : vouched) (leaf : augcert)
+      (tsec tnsec : Z) (ver : bversion) (vss : list (signed_subset * augcert * bool))
+      (x x' : bexchange) (rs : N) (integ : bytes) :
+    new_signer H256 certs validity date duration = Ok ss0 ->
+    add_all ss0 xs = Ok ss -> ss_ok ss -> encode_subset ss = Ok signed ->
+    nth_error (sg_vouched sigs) i = Some v -> vs_signed v = signed ->
+    nth_error (sg_auth sigs) (N.to_nat (vs_authority v)) = Some leaf ->
+    new_verifier H256 x509_key sig_ok sigs tsec tnsec ver = Ok vss ->
+    existsb (fun e => snd e) vss = false ->
+    add_payload_integrity H256 x rs = Ok (x', integ) ->
+    In (x', integ) xs ->
+    Forall (fun e => ~ lists_url (bx_url x) e) (firstn i vss) ->
+    verify_exchange H256 vss x' = VxOk (bx_body x) (ac_cert leaf).
+  Proof.
+    intros Hns Hadd Hok He Hv Es Hl Hnv Ht Hapi Hin Hpre.
+    apply add_payload_integrity_ok_inv in Hapi. destruct Hapi as [Hnd [H1 [H2 [-> ->]]]].
+    eapply covered_verifies_gen; eassumption.
   Qed.
 
   (* NewVerifier accepts when every vouched subset is some signer's, correctly
